@@ -884,7 +884,7 @@ zap_links(vbi_page *pg, int row)
 	vbi_link ld;
 	vbi_char *acp;
 	vbi_bool link[43];
-	int i, j, n, b;
+	int i, j, k, n, b;
 
 	acp = &pg->text[row * EXT_COLUMNS];
 
@@ -900,7 +900,9 @@ zap_links(vbi_page *pg, int row)
 	buffer[j + 1] = ' ';
 	buffer[j + 2] = 0;
 
-	for (i = 0; i < COLUMNS; i += n) { 
+	/* Mind the buffer holds only j characters, fewer than COLUMNS
+	   when the row contains double width characters. */
+	for (i = 0, k = j; i < k; i += n) { 
 		n = keyword(&ld, buffer, i + 1,
 			pg->pgno, pg->subno, &b);
 
